@@ -628,7 +628,19 @@ func (l *Linter) check(
 		}
 	}
 
-	all = l.filterErrors(all, cfg.PathConfigs(path))
+	// Glob patterns in "paths" config are matched with the file path relative to the root of the
+	// project. `path` is relative to the current working directory or is as given by the caller
+	cfgPath := path
+	if project != nil {
+		p := path
+		if !filepath.IsAbs(p) {
+			p = filepath.Join(l.cwd, p)
+		}
+		if r, err := filepath.Rel(project.RootDir(), p); err == nil {
+			cfgPath = r
+		}
+	}
+	all = l.filterErrors(all, cfg.PathConfigs(cfgPath))
 
 	for _, err := range all {
 		err.Filepath = path // Populate filename in the error
